@@ -42,6 +42,7 @@ class A:
         self.get_manifest = meth('get_manifest', '&mut artifact::Artifact<Base>')
         self.media = {k: eng.find_body(lambda b, k=k: b.name == 'v1_' + k) for k in KINDS}
         self.media_artifact = eng.find_body(lambda b: b.name == 'v1_artifact')
+        self.new_archive_unnamed = eng.find_body(lambda b: b.name.split('::')[-1] == 'new_archive_unnamed')
 
     def ann_method(self, kind, name):
         T = ANN_T + ANN[kind]
@@ -50,6 +51,14 @@ class A:
 
     def new_builder(self, it, artifact_type='ommx'):
         if artifact_type == 'ommx':
+            # the crate's own constructor (Builder::new_archive_unnamed) over the contract model of ocipkg, so that the artifact type and any
+            # state the builder keeps are what the real code sets up
+            try:
+                r = it.run_body(self.new_archive_unnamed, [Opaque('PathBuf', 'archive.ommx')])
+                if r.vname == 'Ok':
+                    return r.f[0]
+            except Unsupported:
+                pass
             at = Some(it.run_body(self.media_artifact, []))
         elif artifact_type is None:
             at = NONE()
